@@ -7,6 +7,7 @@ CONSTANTS
   Nest = TRUE
   MaxDel = 1
   Merge = FALSE
+  Script <- NoScript
   Dups = FALSE
 SPECIFICATION Spec
 INVARIANTS InvOnce InvPlaced InvBetween InvDepClosed InvNothingLost InvPending InvConverge InvPairOrder InvClosed 
